@@ -71,6 +71,19 @@ pub fn verdict_of(d: &DiffResult, nontrivial: bool, ctx: &mut CaseCtx) -> Verdic
             ctx.label("agree");
             if let Some(o) = &d.yarel {
                 ctx.label(&format!("end:{}", o.kind_name()));
+                if o.dangling_upvalues > 0 {
+                    // the output happened to agree, but a captured variable's slot was discarded
+                    // while its upvalue stayed open: the closure now names a slot that is not the
+                    // variable any more
+                    return Verdict::Fail {
+                        sig: format!("dangling-upvalue{}", trigger_suffix(&d.events)),
+                        detail: format!(
+                            "at {} instruction boundaries an open upvalue pointed at or above the top of the value stack (a captured variable was discarded without being closed)\n{}",
+                            o.dangling_upvalues,
+                            describe(d)
+                        ),
+                    };
+                }
             }
             Verdict::Pass {
                 nontrivial,
